@@ -51,7 +51,7 @@ def replay(path):
                 print("model driver failed:", e.output[-800:])
     if rep.get("argv") is not None and rep.get("files") is not None:
         from .props_c import run_cli
-        wd = os.path.join(bdir, "scratch", "replay")
+        wd = os.path.join(bdir, "scratch", "p%d_" % os.getpid() + "replay")
         r = run_cli(bdir, rep["argv"], rep["files"], wd)
         print("  [command line] Multitensor", " ".join(rep["argv"]))
         print("      exit status:", r.rc)
